@@ -397,6 +397,25 @@ impl Default for MemoryStoreConfig {
     }
 }
 
+// Verification hooks (runtime-monitoring harness only).
+#[cfg(feature = "verif")]
+impl MemoryStore {
+    /// Dump all stored records.
+    pub fn verif_records(&self) -> Vec<Record> {
+        self.records.values().cloned().collect()
+    }
+
+    /// Dump all provider lists in stored order.
+    pub fn verif_providers(&self) -> Vec<(Key, Vec<ProviderRecord>)> {
+        self.provider_keys.iter().map(|(k, v)| (k.clone(), v.clone())).collect()
+    }
+
+    /// Keys of the registered local providers.
+    pub fn verif_local_providers(&self) -> Vec<Key> {
+        self.local_providers.keys().cloned().collect()
+    }
+}
+
 #[cfg(test)]
 mod tests {
     use super::*;
